@@ -11,6 +11,13 @@ A_ID, B_ID = "http://a.invalid/", "http://b.invalid/"
 _JS = None
 
 
+NEW_META = "http://new-meta.invalid/schema"
+
+
+def _no_retrieval(uri):
+    raise IOError("no retrieval in this experiment: " + uri)
+
+
 def preds():
     def strint(checker, x):
         return isinstance(x, str) or (isinstance(x, int) and not isinstance(x, bool))
@@ -133,7 +140,9 @@ def replay_one(ex):
                     cls.append(V.create(meta_schema=meta, validators=base.VALIDATORS, version=o["version"] or None,
                                         type_checker=base.TYPE_CHECKER))
                 elif o["op"] == "validator":
-                    obj = cls[o["c"] - 1]({}, types={"newtype": str}) if o["types"] else cls[o["c"] - 1]({})
+                    # (its resolver refuses every retrieval at once: a reference it cannot answer from its own store fails fast)
+                    res = js.RefResolver.from_schema({}, id_of=cls[o["c"] - 1].ID_OF, handlers={"http": _no_retrieval})
+                    obj = cls[o["c"] - 1]({}, types={"newtype": str}, resolver=res) if o["types"] else cls[o["c"] - 1]({}, resolver=res)
                     vals.append(obj)
                     if o["types"]:
                         tcs.append(obj.TYPE_CHECKER)
@@ -158,7 +167,12 @@ def replay_one(ex):
             for i, v in enumerate(vals):
                 got = class_beh(js, type(v), obj=v)
                 want = beh["val"][i]
-                if got["types"] != want["types"] or got["kw"] != sorted(want["kw"]):
+                try:
+                    v.is_valid(1, {"$ref": NEW_META})
+                    got["knows"] = True
+                except js.exceptions.RefResolutionError:
+                    got["knows"] = False
+                if got["types"] != want["types"] or got["kw"] != sorted(want["kw"]) or got["knows"] != want["knows"]:
                     probs.append((step, "validator_object", i + 1, got, want))
             for i, f in enumerate(fcs):
                 want = {n: h["fcs"][i].get(n, "absent") for n in FMT_NAMES}
@@ -209,7 +223,7 @@ def main(args):
                "among all objects created so far (spec/Registry, MC_C16: action property Undisturbed, invariant "
                "ExtendIdentity); each history is replayed with real objects and EVERY live type checker, class, validator "
                "object and format checker is probed after EVERY step (is_type tables, the type keyword, overridden / added "
-               "keywords, which id keyword is honoured, what check_schema accepts, format functions) and compared with the model's table; registries "
+               "keywords, which id keyword is honoured, what check_schema accepts, whether a validator object resolves a reference to the later-registered metaschema id, format functions) and compared with the model's table; registries "
                "are restored between histories. Non-trivial: a history that creates >= 2 objects; distinct by history." % nops)
     jobs = [dict(module="mc/MC_C16.tla", cfg="mc/MC_C16_%s_b%d.cfg" % (args.tier, b), workers=4 if quick else 16, timeout=7000,
                  heap="5g" if quick else "12g", lazy_exports=True) for b in (1, 2, 3, 4)]
